@@ -2,7 +2,7 @@
 import ast
 
 from .common import ctx, returns, calls_in_ctx, site, reach_from_succ, bulk_appends
-from .lvs import match_rules, CK, CP, last_component_guarded
+from .lvs import merge_key_rule, match_rules, CK, CP, last_component_guarded
 from ..flow import callee_attr
 from ..loader import AnalysisError, norm
 
@@ -12,7 +12,9 @@ def run(R):
     R.ob('C12.MPT.1', 'every pattern-edge traversal (also for a pattern bound while matching the packet) evaluates the edge\'s constraints')
     R.ob('C12.MPT.4', 'a pattern bound by the packet match only matches an equal component of the key name')
     R.ob('C12.TBL.1', 'every named pattern (tags 1..named_pattern_cnt) bound by the packet match is carried into the key match')
-    match_rules(R, {'MPT.3': 'C12.MPT.1', 'MPT.4': 'C12.MPT.4', 'TBL.1c': 'C12.TBL.1'})
+    R.ob('C12.REL.1', 'bindings made while matching are undone exactly when the matcher backs out of the edge that made them (a later alternative is '
+                      'neither matched under a stale binding nor without one it should have)')
+    match_rules(R, {'MPT.3': 'C12.MPT.1', 'MPT.4': 'C12.MPT.4', 'TBL.1c': 'C12.TBL.1', 'REL.1': 'C12.REL.1'})
     ck = ctx(R, CK + '.Checker.check')
     R.ob('C12.PRV.1', 'check(): the key name is matched under the bindings of the packet match; yes only if the key node is a signer of the packet node')
     loops = [n for n in ck.cfg.nodes if n.kind == 'for' and isinstance(n.ast.iter, ast.Call) and callee_attr(n.ast.iter) == '_match']
@@ -129,4 +131,6 @@ def run(R):
         R.ok('C12.GRD.1', inst, site(cm, cm.f.node), ' -> '.join(order))
     else:
         R.fail('C12.GRD.1', inst, cm.qual, 'def compile', f'compiler passes run as {order}', site(cm, cm.f.node))
+    R.ob('C12.SIG.1', 'trie-edge merge key of a rule chain spells out every stored constraint value, with nested lists bracketed (chains are merged only when their constraints are equal)')
+    merge_key_rule(R, 'C12.SIG.1')
     R.assumptions += ['the relation over all schema / name pairs is not decided; only the structure of check() and of the reference fix-up']
